@@ -41,6 +41,7 @@ type episode struct {
 	reported  map[int]bool
 	everSched map[int]bool
 	last      []core.Duty // duties received in the most recent op
+	noTimer   int         // number of times no timer was armed at quiescence
 }
 
 func dutyID(d core.Duty) int { return int(d.Slot)*16 + int(d.Type) }
@@ -84,10 +85,16 @@ func (e *episode) sync() {
 	if st != core.DeadlineExempt {
 		panic("ping not exempt")
 	}
-	ctx, cancel := context.WithTimeout(context.Background(), 20*time.Second)
+	// A correct deadliner always keeps one timer armed (at least the year-9999 sentinel). If none
+	// appears the implementation lost its timer: carry on, the monitors report what follows from it.
+	if e.noTimer > 0 {
+		time.Sleep(2 * time.Millisecond) // already broken in this episode: do not wait again
+		return
+	}
+	ctx, cancel := context.WithTimeout(context.Background(), 2*time.Second)
 	defer cancel()
 	if err := e.clock.BlockUntilContext(ctx, 1); err != nil {
-		panic("deadliner did not become quiescent")
+		e.noTimer++
 	}
 }
 
@@ -106,7 +113,11 @@ func (e *episode) drain() []core.Duty {
 
 // observe syncs, drains, runs the monitors and renders the canonical reported list.
 func (e *episode) observe(run *hx.Run, due int) string {
+	before := e.noTimer
 	e.sync()
+	if e.noTimer > before && before == 0 {
+		run.Violate("deadliner:no_timer_armed", "the deadliner has no timer armed after handling an operation (pending duties can no longer be reported)")
+	}
 	got := e.drain()
 	e.last = got
 	now := e.nowMs()
